@@ -93,7 +93,7 @@ type interpreter struct {
 	sol         *smt.Solver
 	ps          *pathState
 	stats       EngineStats
-	symMapOrder bool
+	symMapOrder int // 0 off, 1 at iteration sites in package bexpr only, 2 everywhere
 	stepBudget  int64
 	tier        int
 	seed        int64
@@ -356,7 +356,7 @@ func visitInstr(fr *frame, instr ssa.Instruction) continuation {
 		fr.env[fr.fi.index[instr]] = makeMap(instr.Type().Underlying().(*types.Map).Key(), reserve)
 
 	case *ssa.Range:
-		fr.env[fr.fi.index[instr]] = rangeIter(fr.i, fr.get(instr.X), instr.X.Type())
+		fr.env[fr.fi.index[instr]] = rangeIter(fr, fr.get(instr.X), instr.X.Type())
 
 	case *ssa.Next:
 		fr.env[fr.fi.index[instr]] = fr.get(instr.Iter).(iter).next()
